@@ -46,13 +46,13 @@ RULE = {
            "record shapes seen, op kinds)",
 }
 FAULT_KINDS = {
-    "C04": ["cold_record", "rng_min", "rng_max", "cost_beyond_hard_limit", "legacy_below_min", "legacy_above_max", "policy_update"],
-    "C08": ["cold_start", "subst", "delete", "dup", "insert", "truncate", "empty", "other_record", "other_scheme", "swap_fields", "nul", "nonascii",
+    "C04": ["platform_crypt_lacks_format", "cold_record", "rng_min", "rng_max", "cost_beyond_hard_limit", "legacy_below_min", "legacy_above_max", "policy_update"],
+    "C08": ["platform_crypt_lacks_format", "cold_start", "subst", "delete", "dup", "insert", "truncate", "empty", "other_record", "other_scheme", "swap_fields", "nul", "nonascii",
             "garbage", "numeric_alias", "respell", "as_bytes"],
-    "C10": ["restart_via_object", "using_raises", "invalid_item", "policy_file_missing", "policy_file_unreadable", "policy_file_read_error",
+    "C10": ["platform_crypt_lacks_format", "restart_via_object", "using_raises", "invalid_item", "policy_file_missing", "policy_file_unreadable", "policy_file_read_error",
             "policy_file_truncated", "policy_file_wrong_section", "policy_file_not_utf8", "restart_via_dict", "restart_via_ini",
             "restart_via_file"],
-    "C18": ["disable_twice", "bare_marker", "empty_record", "none_record", "policy_update", "restart", "neighbour_context"],
+    "C18": ["platform_crypt_lacks_format", "disable_twice", "bare_marker", "empty_record", "none_record", "policy_update", "restart", "neighbour_context"],
 }
 COMPONENTS = {
     "real": ["passlib.context.CryptContext / _CryptConfig (load, update, copy, to_dict, to_string, from_string, from_path, load_path, hash, "
@@ -287,15 +287,12 @@ def _cost_class(c, lo, hi):
 # generation
 # =============================================================================================
 def generate(rng, prop, tier):
-    if prop == "C04":
-        return _gen_policy_program(rng, tier)
-    if prop == "C08":
-        return _gen_storage_program(rng, tier)
-    if prop == "C10":
-        return _gen_config_program(rng, tier)
-    if prop == "C18":
-        return _gen_lifecycle_program(rng, tier)
-    raise AssertionError(prop)
+    gen = {"C04": _gen_policy_program, "C08": _gen_storage_program, "C10": _gen_config_program, "C18": _gen_lifecycle_program}[prop]
+    program = gen(rng, tier)
+    # the host: in a quarter of the runs its crypt(3) knows none of the formats, so every multi-backend scheme of the run works on
+    # its pure-Python backend (selected on first use, after the platform candidate was tried and found unusable)
+    program["cfg"]["crypt_lacks"] = rng.random() < 0.25
+    return program
 
 
 def _delta(rng, cfg, truncate=False):
@@ -554,6 +551,11 @@ def execute(program, ctx):
     cfg = program["cfg"]
     mode = cfg["mode"]
     ctx.rng = SimRandom(cfg["seed"], ctx).install()
+    if cfg.get("crypt_lacks"):
+        from simkit.seams import SimCrypt
+
+        SimCrypt().install().lost.add("")
+        ctx.fault("platform_crypt_lacks_format")
     if mode == "policy":
         _PolicyRun(cfg, ctx).run(program["ops"])
     elif mode == "storage":
